@@ -52,6 +52,29 @@ pub struct Sim {
     pub new2: Vec<Id>,
     pub counter: u32,
     pub steps: u64,
+    /// output order, after the last sort_new_items call, of the elements that had a position then - the A2ML / MOD_COMMON /
+    /// MOD_PAR / VARIANT_CODING blocks included
+    pub anchors: Vec<Id>,
+}
+
+/// position keys of the blocks that occur at most once
+fn singleton_uids(f: &A2lFile) -> std::collections::HashMap<Id, u32> {
+    use a2lfile::A2lObject;
+    let m = &f.project.module[0];
+    let mut out = std::collections::HashMap::new();
+    if let Some(x) = &m.a2ml {
+        out.insert(("A2ML".to_string(), String::new()), x.get_layout().uid);
+    }
+    if let Some(x) = &m.mod_common {
+        out.insert(("MOD_COMMON".to_string(), String::new()), x.get_layout().uid);
+    }
+    if let Some(x) = &m.mod_par {
+        out.insert(("MOD_PAR".to_string(), String::new()), x.get_layout().uid);
+    }
+    if let Some(x) = &m.variant_coding {
+        out.insert(("VARIANT_CODING".to_string(), String::new()), x.get_layout().uid);
+    }
+    out
 }
 
 fn observe(g: &Grammar, f: &A2lFile) -> Result<Vec<Id>, String> {
@@ -86,7 +109,7 @@ impl Sim {
         let placed = observe(g, &file)?.into_iter().filter(|x| um.get(x).copied().unwrap_or(0) != 0).collect();
         let known = um.keys().cloned().collect();
         let others = observe_others(g, &file)?;
-        Ok(Sim { file, placed, new: vec![], known, others, new2: vec![], counter: 0, steps: 0 })
+        Ok(Sim { file, placed, new: vec![], known, others, new2: vec![], counter: 0, steps: 0, anchors: vec![] })
     }
 
     fn apply(&mut self, g: &Grammar, a: Act) -> Result<(), String> {
@@ -149,12 +172,15 @@ impl Sim {
                     // same name, other content than in the start files "one" / "mixed": added under a fresh name
                     3 => vec![e("UNIT", &format!("zu{c}"), "c1"), e("MEASUREMENT", "m1", "c2"), e("CHARACTERISTIC", "c1", "c2"), e("MEASUREMENT", &format!("mq{c}"), "c1")],
                     4 => vec![e("MEASUREMENT", &format!("mr{c}"), "c1"), e("COMPU_METHOD", "cm1", "c2"), e("GROUP", "g1", "c2"), e("MEASUREMENT", "m2", "c1"), e("CHARACTERISTIC", "c2", "c2")],
+                    // a module whose singletons are listed against the canonical order, with a USER_RIGHTS block and an element
+                    5 => vec![e("MOD_PAR", "", "c1"), e("MOD_COMMON", "", "c1"), e("USER_RIGHTS", &format!("ux{c}"), "c1"), e("MEASUREMENT", &format!("ms{c}"), "c1"), e("VARIANT_CODING", "", "c1")],
                     _ => vec![e("COMPU_METHOD", &format!("mcm{c}"), "c1"), e("GROUP", &format!("mg{c}"), "c1"), e("COMPU_METHOD", &format!("mcn{c}"), "c2")],
                 };
                 let text = file_text(g, "other", &specs);
                 let mut other = a2lfile::load_from_string(&text, None, false).map_err(|e| format!("machinery: merge module does not load: {e}"))?.0;
                 guard(|| self.file.merge_modules(&mut other)).map_err(|p| format!("panic: {p}"))?;
-                for s in specs {
+                // (the singletons have no name and no "last element of their kind": they are only subject to order stability once placed)
+                for s in specs.into_iter().filter(|s| !s.name.is_empty()) {
                     self.new.push((s.tag.clone(), s.name.clone()));
                 }
                 Ok(())
@@ -252,6 +278,21 @@ impl Sim {
                 }
             }
         }
+        // 1b. the same for everything that had a position after the last call, the blocks that occur once included (their
+        // names are empty in the observation)
+        {
+            let single = |x: &Id| matches!(x.0.as_str(), "A2ML" | "MOD_COMMON" | "MOD_PAR" | "VARIANT_CODING");
+            let norm = |x: &Id| if single(x) { (x.0.clone(), String::new()) } else { x.clone() };
+            let seq: Vec<Id> = out.iter().map(norm).filter(|x| self.anchors.contains(x)).collect();
+            let want: Vec<Id> = self.anchors.iter().filter(|x| seq.contains(x)).cloned().collect();
+            if seq != want {
+                return Err(("placed-order-changed".into(), format!("after {a:?}: elements that had a position after the last call were written as {:?}, before {:?}", fmt_ids(&seq.iter().collect::<Vec<_>>()), fmt_ids(&want.iter().collect::<Vec<_>>()))));
+            }
+            if a == Act::S {
+                let su = singleton_uids(&self.file);
+                self.anchors = out.iter().map(norm).filter(|x| if single(x) { su.get(x).copied().unwrap_or(0) != 0 } else { named(x) && uid_after.get(x).copied().unwrap_or(0) != 0 }).collect();
+            }
+        }
         // what counts as placed from now on: elements with a position key, in output order
         self.placed = out.iter().filter(|x| named(x) && uid_after.get(*x).copied().unwrap_or(0) != 0).cloned().collect();
         self.new.clear();
@@ -319,6 +360,10 @@ fn names_of(f: &A2lFile, tag: &str) -> Vec<String> {
     }
 }
 
+thread_local! {
+    static SINGLES_START: std::cell::RefCell<String> = const { std::cell::RefCell::new(String::new()) };
+}
+
 pub fn start_texts(g: &Grammar) -> Vec<(String, String)> {
     let three = file_text(g, "m", &[e("MEASUREMENT", "m1", "c1"), e("CHARACTERISTIC", "c1", "c1"), e("MEASUREMENT", "m2", "c1"), e("COMPU_METHOD", "cm1", "c1"), e("USER_RIGHTS", "u1", "c1"), e("GROUP", "g1", "c1"), e("CHARACTERISTIC", "c2", "c1")]);
     // interleave a comment and an IF_DATA block
@@ -331,6 +376,8 @@ pub fn start_texts(g: &Grammar) -> Vec<(String, String)> {
         let pos = three.rfind("/end MODULE").map(|x| x + "/end MODULE".len()).unwrap_or(three.len());
         format!("{}\n  {}{}", &three[..pos], second[a..b].replace("/end MODULE", "/begin IF_DATA YY 2 /end IF_DATA\n  /end MODULE"), &three[pos..])
     };
+    let singles = file_text(g, "m", &[e("MEASUREMENT", "m1", "c1"), e("VARIANT_CODING", "", "c1"), e("MEASUREMENT", "m2", "c1"), e("MOD_PAR", "", "c1"), e("GROUP", "g1", "c1"), e("MOD_COMMON", "", "c1"), e("CHARACTERISTIC", "c1", "c1")]);
+    SINGLES_START.with(|c| *c.borrow_mut() = singles.clone());
     vec![("empty".into(), file_text(g, "m", &[])), ("one".into(), file_text(g, "m", &[e("MEASUREMENT", "m1", "c1")])), ("mixed".into(), three), ("new()".into(), a2lfile::new().write_to_string()), ("two-modules".into(), two)]
 }
 
@@ -561,6 +608,21 @@ pub fn run(tier: &str) -> Run {
         hists.push((allk, vec![p, Act::S, Act::S], true, "all-kinds"));
     }
     hists.push((allk, vec![Act::S; 40], true, "all-kinds"));
+    // singletons: a start file with VARIANT_CODING, MOD_PAR and MOD_COMMON between the lists, and a merge partner that brings
+    // MOD_PAR, MOD_COMMON, USER_RIGHTS and VARIANT_CODING against the canonical order (placed by one call, then several calls)
+    {
+        let singles = SINGLES_START.with(|c| c.borrow().clone());
+        starts.push(("singletons-in-the-middle".into(), singles));
+        let si = starts.len() - 1;
+        for h in [vec![Act::S; 4], vec![Act::P(0), Act::S, Act::S, Act::P(3), Act::S, Act::S], vec![Act::M(1), Act::S, Act::S, Act::S]] {
+            hists.push((si, h, true, "singletons"));
+        }
+        for st in [0usize, 1, 2] {
+            for h in [vec![Act::M(5), Act::S, Act::S, Act::S], vec![Act::M(5), Act::S, Act::P(0), Act::S, Act::S], vec![Act::M(5), Act::M(5), Act::S, Act::S, Act::M(5), Act::S, Act::S]] {
+                hists.push((st, h, true, "singletons"));
+            }
+        }
+    }
     // pushes into the second module of a project (the first module gets nothing new, or something new as well)
     if let Some(two) = starts.iter().position(|s| s.0 == "two-modules") {
         for h in [
